@@ -1,8 +1,10 @@
 package main
 
 import (
+	"crypto/tls"
 	"fmt"
 	"net"
+	"sync"
 	"time"
 
 	"github.com/bluenviron/gortsplib/v5"
@@ -109,6 +111,96 @@ func runAccept(c Case) (f *fail) {
 	}
 	if opens != closes {
 		return &fail{tag + "/unbalanced-conn-callbacks", fmt.Sprintf("OnConnOpen %d times, OnConnClose %d times (%+v)", opens, closes, c)}
+	}
+	return nil
+}
+
+// Client.Close while the client's first exchange is pending against a peer that accepted the connection and
+// says nothing: the TLS handshake (rtsps), the HTTP / WebSocket tunnel handshake, or the first request
+// itself. The pending call is started, the library runs to quiescence (no virtual time passes), then Close
+// is called: Close and the pending call must both return, nothing may be left behind.
+
+func midHandshakeCases() []Case {
+	var cs []Case
+	for _, v := range []string{"plain", "tls", "http-tunnel", "ws-tunnel"} {
+		cs = append(cs, Case{Scenario: "client-close-mid-handshake/" + v, K: 0, Who: "client", Mode: "gated"})
+	}
+	return cs
+}
+
+func runMidHandshake(c Case) (f *fail) {
+	defer func() {
+		if r := recover(); r != nil {
+			f = &fail{c.Scenario + "/harness-panic", fmt.Sprint(r)}
+		}
+	}()
+	env := sysx.NewEnv()
+	tag := c.Scenario
+	ln, err := env.Net.Listen("tcp", "127.0.0.1:8554")
+	if err != nil {
+		return &fail{"harness/listen", err.Error()}
+	}
+	var held []net.Conn
+	var hmu sync.Mutex
+	go func() {
+		for {
+			nc, err := ln.Accept()
+			if err != nil {
+				return
+			}
+			hmu.Lock()
+			held = append(held, nc) // accepted, never read, never answered
+			hmu.Unlock()
+		}
+	}()
+	cleanup := func() {
+		ln.Close()
+		hmu.Lock()
+		for _, nc := range held {
+			nc.Close()
+		}
+		hmu.Unlock()
+	}
+	defer cleanup()
+	variant := c.Scenario[len("client-close-mid-handshake/"):]
+	cli := env.NewClient(func(cl *gortsplib.Client) {
+		switch variant {
+		case "tls":
+			cl.Scheme = "rtsps"
+			cl.TLSConfig = &tls.Config{InsecureSkipVerify: true}
+		case "http-tunnel":
+			cl.Tunnel = gortsplib.TunnelHTTP
+		case "ws-tunnel":
+			cl.Tunnel = gortsplib.TunnelWebSocket
+		}
+	})
+	if err := cli.Start(); err != nil {
+		return &fail{"harness/client-start", err.Error()}
+	}
+	scheme := "rtsp"
+	if variant == "tls" {
+		scheme = "rtsps"
+	}
+	pending := make(chan struct{})
+	go func() {
+		defer close(pending)
+		cli.Describe(sysx.MustURL(scheme + "://127.0.0.1:8554/stream")) //nolint:errcheck
+	}()
+	sysx.Settle()
+	closed := make(chan struct{})
+	go func() { defer close(closed); cli.Close() }()
+	if !pump(env, closed) {
+		return &fail{tag + "/Client.Close-does-not-return", fmt.Sprintf("the first exchange is pending against a silent peer; Close did not return although virtual time was advanced by 150 s (%+v); library goroutines: %v", c, sysx.LibGoroutines())}
+	}
+	if !pump(env, pending) {
+		return &fail{tag + "/pending-call-does-not-return", fmt.Sprintf("Close returned, the Describe that was pending did not (%+v)", c)}
+	}
+	cleanup()
+	if left := sysx.WaitNoLibGoroutines(); len(left) > 0 {
+		return &fail{tag + "/goroutine-left", fmt.Sprintf("%v (%+v)", left, c)}
+	}
+	if left := env.Net.Open(); len(left) > 0 {
+		return &fail{tag + "/socket-left", fmt.Sprintf("%v (%+v)", left, c)}
 	}
 	return nil
 }
